@@ -5,6 +5,8 @@ Engine E1: scripts over the WAL facade (surrealkv::verif::wal) and over the extr
 import os, re
 from . import common as C
 
+PARAM_SECTIONS = ["wal"]
+
 MODEL_TARGETS = ["theories/Codec/WalInst.vo"]
 TRUSTED = [
     "CRC-32 is computed by Base/Crc32.v on the model side (checked against crc32fast through byte-identical files); "
